@@ -53,11 +53,22 @@ def main():
             meta["error"] = out[-500:]
             return finish(dst, meta)
         env = dict(os.environ, PYTHONPATH=mut)
-        rc, out = sh("/venv/bin/python -m pytest -q -p no:cacheprovider -n 8 2>&1 | tail -3", cwd=mut, env=env)
-        m = re.search(r"(\d+) passed", out)
-        meta["suite_with_patch"] = out.strip().splitlines()[-1] if out.strip() else ""
-        meta["suite_passes_with_patch"] = bool(m) and "failed" not in out and "error" not in out.lower().replace("errors", "error").replace("0 error", "")
-        if os.path.exists(demo):
+        old = {}
+        if os.environ.get("SEED_CHECKS_ONLY") == "1" and os.path.exists(os.path.join(dst, "meta.json")):
+            # regression over many changes: suite and demonstration were verified before (kept), only the checks are re-run
+            old = json.load(open(os.path.join(dst, "meta.json")))
+        if old.get("suite_passes_with_patch") and old.get("demo_exit_with_patch") == 1 and old.get("demo_exit_without_patch") == 0:
+            for k in ("suite_with_patch", "suite_passes_with_patch", "demo_exit_with_patch", "demo_exit_without_patch", "demo_output_with_patch"):
+                meta[k] = old.get(k)
+            meta["suite_and_demo_verified_at"] = old.get("suite_and_demo_verified_at", old.get("verified_at"))
+            skip = True
+        else:
+            skip = False
+            rc, out = sh("/venv/bin/python -m pytest -q -p no:cacheprovider -n 8 2>&1 | tail -3", cwd=mut, env=env)
+            m = re.search(r"(\d+) passed", out)
+            meta["suite_with_patch"] = out.strip().splitlines()[-1] if out.strip() else ""
+            meta["suite_passes_with_patch"] = bool(m) and "failed" not in out and "error" not in out.lower().replace("errors", "error").replace("0 error", "")
+        if os.path.exists(demo) and not skip:
             rc_m, out_m = sh(f"/venv/bin/python {demo}", cwd="/tmp", env=dict(os.environ, PYTHONPATH=mut), timeout=900)
             rc_b, out_b = sh(f"/venv/bin/python {demo}", cwd="/tmp", env=dict(os.environ, PYTHONPATH=base), timeout=900)
             meta["demo_exit_with_patch"] = rc_m
@@ -66,13 +77,16 @@ def main():
         detected = {}
         for c in checks:
             env2 = dict(os.environ, VERIF_REPO=mut, VERIF_EVIDENCE_DIR=os.path.join(scratch, "ev"))
+            if os.environ.get("SEED_FAILFAST") == "1":
+                env2["VERIF_FAILFAST"] = "1"  # regression over many changes: the first violation settles "caught"
             t0 = time.time()
             rc, out = sh(f"{VERIF}/check {c} --tier {tier}", cwd=VERIF, env=env2, timeout=7200)
             sigs = re.findall(r"signature=(\S+) cases=(\d+)", out)
             detected[c] = {"exit": rc, "violation_signatures": [f"{s} ({n})" for s, n in sigs][:8], "wall_s": round(time.time() - t0, 1)}
         meta["checks_run"] = detected
         meta["caught_by"] = [c for c, d in detected.items() if d["exit"] == 1]
-        meta["ran"] = f"suite with patch; demo with/without patch; ./check <id> --tier {tier} with VERIF_REPO=<patched scratch copy> for {checks}"
+        meta["ran"] = f"suite with patch; demo with/without patch; ./check <id> --tier {tier} with VERIF_REPO=<patched scratch copy> for {checks}" + (
+            " (stopped at the first group that reported a violation)" if os.environ.get("SEED_FAILFAST") == "1" else "")
         return finish(dst, meta)
     finally:
         shutil.rmtree(scratch, ignore_errors=True)
